@@ -454,7 +454,7 @@ Proof.
   destruct (len c <=? len iv) eqn:Ec.
   - assert (Hcl : len c = len iv) by lia.
     rewrite take_all in Ht by lia. subst c.
-    unfold drop in Hd. rewrite <- Hcl in Hd. unfold len in Hd. rewrite Nat2Z.id, skipn_all in Hd. cbn [app] in Hd.
+    unfold drop, len in Hd. rewrite Nat2Z.id, skipn_all in Hd. cbn [app] in Hd.
     rewrite Z.eqb_refl. cbn [negb]. rewrite Hd, ctr_roundtrip.
     rewrite <- (app_nil_r (enc_sentinel x)). apply sentinel_roundtrip. exact H.
   - rewrite Ht. rewrite Z.eqb_refl. cbn [negb concat]. rewrite Hd, ctr_roundtrip.
